@@ -416,6 +416,72 @@ def _err_constructions(F, f):
     return out
 
 
+INTLIKE = ("usize", "u64", "u32", "u16", "u8", "i64", "i32", "isize", "bool", "i8", "i16", "u128", "i128")
+
+
+def _is_ok_none(e):
+    e = peel(e) if isinstance(e, dict) else e
+    if isinstance(e, dict) and e.get("k") == "Call" and (callee(e) or "").endswith("::Ok") and e["args"]:
+        a = peel(e["args"][0])
+        return (hirq.path_def(a) or "").endswith("Option::None")
+    return False
+
+
+def early_absent_sites(f):
+    """(findings [(where, why)], number of loops containing a return) - `return Ok(None)` inside a loop that is controlled by
+    the shape / kind of a value (a match on a non-integer scrutinee, an `if let`) rather than by integer tests only."""
+    fnd = []
+    loops = [0]
+
+    def rec(n, ctx, in_loop):
+        if isinstance(n, list):
+            for x in n:
+                rec(x, ctx, in_loop)
+            return
+        if not isinstance(n, dict):
+            return
+        k = n.get("k")
+        if k == "Closure":
+            return
+        if k == "Loop":
+            if any(x.get("k") == "Ret" for x in walk(n)):
+                loops[0] += 1
+            for v in n.values():
+                if isinstance(v, (dict, list)):
+                    rec(v, [], True)
+            return
+        if k == "Ret" and in_loop and n.get("e") is not None and _is_ok_none(n["e"]):
+            bad = [c for c in ctx if c[0] == "data"]
+            if bad:
+                fnd.append((loc(n), bad[0][1]))
+            return
+        if k == "Match" and in_loop and n.get("src") == "Normal":
+            sty = (n["scrut"].get("ty") or "").lstrip("&").replace("mut ", "").strip()
+            rec(n["scrut"], ctx, in_loop)
+            for arm in n["arms"]:
+                if sty in INTLIKE:
+                    c = ("int", "")
+                else:
+                    c = ("data", "in the arm at %s of a match on a value of type %s" % (loc(arm["pat"]), sty[:60]))
+                rec(arm.get("guard"), ctx, in_loop)
+                rec(arm["body"], ctx + [c], in_loop)
+            return
+        if k == "If" and in_loop:
+            cond = n["cond"]
+            is_let = any(x.get("k") == "Let" for x in walk(cond))
+            c = ("data", "under the `if let` at %s" % loc(n)) if is_let else ("int", "")
+            rec(cond, ctx, in_loop)
+            rec(n.get("then"), ctx + [c], in_loop)
+            rec(n.get("else"), ctx + [c], in_loop)
+            return
+        for v in n.values():
+            if isinstance(v, (dict, list)):
+                rec(v, ctx, in_loop)
+
+    rec(f["hir"], [], False)
+    return fnd, loops[0]
+
+
 def rule_G4(ctx):
     F = ctx.F
     r = RuleResult("G4", "lookup-error-discipline: list lookups construct only the reviewed errors (not-a-list / corrupt cell); 'absent' and 'out of range' are Ok(None)")
@@ -457,9 +523,26 @@ def rule_G4(ctx):
                 r.finding(f["path"], "err:%s|n=%d" % (label, len(wheres)), wheres[0],
                           "list lookup constructs %d error(s) of kind %s at %s; the reviewed list allows %d%s. A lookup must report an absent key or an index outside 0..n-1 as Ok(None)" % (
                               len(wheres), label, ", ".join(wheres), allowed, (" (" + fa[label]["reason"] + ")") if label in fa else ""))
+    # G4b: inside a probing / scanning loop "absent" is decided by exhausting the sequence, never by the kind of an item met
+    n_loops = 0
+    for f in scope:
+        fnd, nl = early_absent_sites(f)
+        n_loops += nl
+        if nl:
+            r.examine((f["path"], "loops"), True, {"fn": f["path"], "loops_with_returns_examined": nl, "early_absent": len(fnd)})
+        for k_, (where, why) in enumerate(fnd):
+            r.finding(f["path"], "early-absent#%d" % (k_ + 1), where, "inside a lookup loop `Ok(None)` (absent) is returned %s: a key stored further along the probe / scan sequence is reported absent; absence may only follow from exhausting the sequence (a counter or ordering test)" % why)
+    r.analysed["lookup_loops_examined"] = n_loops
     # controls
     for f in F.fns_in("gfixture::g4::"):
         if f["kind"] == "Closure":
+            continue
+        if f["name"].startswith("g4b_"):
+            fnd, _nl = early_absent_sites(f)
+            if f["name"].startswith("g4b_ctl_"):
+                r.control(f["name"], bool(fnd))
+            else:
+                r.neg_control(f["name"], not fnd)
             continue
         hit = bool(_err_constructions(F, f))
         if f["name"].startswith("ctl_"):
@@ -894,4 +977,113 @@ def rule_D6(ctx):
                 r.control(suffix, bool(ff))
             elif suffix.startswith("ok_"):
                 r.neg_control(suffix, not ff)
+    return r
+
+
+# --------------------------------------------------------------------------------------- W3
+# Accumulator reset.  The data objects build strings / byte lists / lists in an `Option<collection>` field between a start
+# and an end call.  A build into a shared data object must not see what an earlier, aborted accumulation left behind: every
+# function that starts an accumulation (stores `Some(<collection>)` into such a field) does so on every path - the store is
+# never conditional on the field's previous content.
+
+from . import mirq as _mirq  # noqa: E402
+
+
+def accumulator_fields(F, crate_prefix):
+    """(struct path, field index, field name) of Option<String|Vec..> fields of structs in the crate."""
+    out = []
+    for p, a in F.adts.items():
+        if a["kind"] != "struct" or not p.startswith(crate_prefix):
+            continue
+        for i, fd in enumerate(a["variants"][0]["fields"]):
+            ty = fd["ty"]
+            if ty.startswith("core::option::Option<") and ("alloc::string::String" in ty or "alloc::vec::Vec<" in ty):
+                out.append((p, i, fd["name"]))
+    return out
+
+
+def start_sites(f, fields_by_struct):
+    """For a &mut self method: [(field name, where, witness path or None)] for every accumulator field it stores Some(..) into."""
+    mir = f["mir"]
+    if len(mir["locals"]) < 2:
+        return []
+    self_ty = mir["locals"][1]["ty"]
+    if not self_ty.startswith("&mut "):
+        return []
+    cands = [(sp, flds) for sp, flds in fields_by_struct.items() if sp.split("::")[-1] in self_ty]
+    if not cands:
+        return []
+    flds = dict((i, n) for _sp, fl in cands for i, n in fl)
+    asg = _mirq.assignments(mir)
+
+    def some_store(s):
+        """statement stores an Option::Some aggregate into an accumulator field of *self -> field name"""
+        if s["k"] != "Assign" or s["place"]["l"] != 1:
+            return None
+        pr = s["place"]["p"]
+        if len(pr) != 2 or pr[0] != "*" or not (isinstance(pr[1], dict) and pr[1].get("f") in flds):
+            return None
+        rv = s["rv"]
+        def is_some(rv_):
+            return rv_.get("k") == "Aggregate" and rv_.get("variant") == "Some"
+        if is_some(rv):
+            return flds[pr[1]["f"]]
+        if rv["k"] == "Use":
+            l = _mirq.op_local(rv["op"])
+            if l is not None:
+                orgs = _mirq.origins(mir, l, asg)
+                if orgs and all(o[1] != "term" and is_some(o[2]) for o in orgs):
+                    return flds[pr[1]["f"]]
+        return None
+
+    started = {}
+    for bi, b in enumerate(mir["blocks"]):
+        if b["cleanup"]:
+            continue
+        for s in b["stmts"]:
+            nm = some_store(s)
+            if nm:
+                started.setdefault(nm, loc(s))
+    out = []
+    for nm, where in sorted(started.items()):
+        def marker(ci, cb, nm=nm):
+            return any(some_store(s) == nm for s in cb["stmts"])
+        w = None if marker(0, mir["blocks"][0]) else _mirq.path_avoiding(mir, [0], marker)
+        out.append((nm, where, w))
+    return out
+
+
+def rule_W3(ctx):
+    F = ctx.F
+    r = RuleResult("W3", "accumulator reset: a function that starts an accumulation stores a fresh Some(collection) into the accumulator field on every path, never conditionally on what an earlier (possibly aborted) accumulation left there")
+    acc = accumulator_fields(F, "garnish_lang_simple_data")
+    by_struct = {}
+    for sp, i, n in acc:
+        by_struct.setdefault(sp, []).append((i, n))
+    r.analysed["accumulator_fields"] = ["%s.%s" % (sp.split("::")[-1], n) for sp, _i, n in acc]
+    n = 0
+    for f in sorted(F.fns.values(), key=lambda f: f["path"]):
+        if f["crate"] != "garnish_lang_simple_data" or f["kind"] == "Closure":
+            continue
+        for nm, where, w in start_sites(f, by_struct):
+            n += 1
+            r.examine((f["path"], nm), True, {"fn": f["path"], "accumulator": nm, "store_at": where, "stored_on_every_path": w is None})
+            if w is not None:
+                r.finding(f["path"], "conditional-start:" + nm, where,
+                          "`%s` is (re)started only on some paths (a path through blocks %s reaches the return without the store): text or items left by an aborted earlier accumulation are kept and prepended to the next value built into the same data object" % (nm, w),
+                          path=["CFG blocks: " + " -> ".join("bb%d" % x for x in w)])
+    r.floor("functions starting an accumulation", n, 2)
+    facc = accumulator_fields(F, "gfixture::w3")
+    fby = {}
+    for sp, i, nm in facc:
+        fby.setdefault(sp, []).append((i, nm))
+    for f in F.fns_in("gfixture::w3::"):
+        if f["kind"] == "Closure" or not f.get("name", "").startswith(("ctl_", "ok_")):
+            continue
+        sites = start_sites(f, fby)
+        bad = any(w is not None for _n, _wh, w in sites)
+        if f["name"].startswith("ctl_"):
+            r.control(f["name"], bad)
+        else:
+            r.neg_control(f["name"], bool(sites) and not bad)
     return r
